@@ -11,6 +11,8 @@ import (
 	"context"
 	"fmt"
 	"net"
+	"sync"
+	"sync/atomic"
 	"testing"
 	"time"
 
@@ -149,5 +151,101 @@ func TestC08_Salts(t *testing.T) {
 		maxConns = 300
 	}
 	p := kit.Prop[C08Case]{ID: "C08", Name: "Salts", Quick: 8000, Thorough: 300000, Gen: genC08(maxConns), Run: runC08}
+	p.Execute(t)
+}
+
+// ---- concurrent variant -------------------------------------------------------------------
+// One salt generator serves every connection of a key: responses produced concurrently for one
+// key must still start with fresh salts the server recognises. G goroutines relay connections
+// under the same few keys at once; afterwards every recorded server stream is reflected.
+// A panic inside a handler goroutine of the harness would kill the process: the case is journalled.
+
+type C08Conc struct {
+	Keys    []kit.KeySpec `json:"keys"`
+	Workers int           `json:"workers"`
+	PerW    int           `json:"per_worker"`
+	Seed    int64         `json:"seed"`
+}
+
+func genC08Conc(t *rapid.T) C08Conc {
+	return C08Conc{Keys: kit.GenKeyUniverse(t, 1, 3), Workers: rapid.IntRange(2, 16).Draw(t, "workers"), PerW: rapid.IntRange(20, 300).Draw(t, "perw"), Seed: rapid.Int64Range(1, 1<<40).Draw(t, "seed")}
+}
+
+func runC08Conc(c C08Conc, info *kit.Info) *kit.Finding {
+	dialer := &kit.RecDialer{Response: func(string) ([]byte, error) { return []byte("r"), nil }}
+	h := service.NewStreamHandler(service.NewShadowsocksStreamAuthenticator(kit.NewCipherList(c.Keys), nil, nil, nil), time.Second)
+	h.SetTargetDialer(dialer)
+	type out struct {
+		key  int
+		wire []byte
+	}
+	outs := make([][]out, c.Workers)
+	var wg sync.WaitGroup
+	var fnd atomic.Pointer[kit.Finding]
+	start := make(chan struct{})
+	for w := 0; w < c.Workers; w++ {
+		wg.Add(1)
+		go func(w int) {
+			defer wg.Done()
+			<-start
+			for i := 0; i < c.PerW; i++ {
+				ki := (w + i) % len(c.Keys)
+				key := c.Keys[ki].Key()
+				wire := kit.EncodeStream(key, kit.DetBytes(c.Seed+int64(w*100000+i), key.SaltSize()), append(kit.SocksAddrFor("192.0.2.99:80", false), "q"...), nil)
+				conn := kit.NewMemConn(wire, &net.TCPAddr{IP: net.IPv4(203, 0, 113, byte(w)), Port: 2000 + i})
+				rec := kit.NewRecTCPConn()
+				h.Handle(context.Background(), conn, rec)
+				if cl, _ := rec.Closed(); cl.Status != "OK" {
+					if cl.Status != "ERR_REPLAY_SERVER" { // the 2^-32 event
+						fnd.CompareAndSwap(nil, kit.Violation("salt:setup", "concurrent relay under %s closed with %s", c.Keys[ki].ID, cl.Status))
+					}
+					continue
+				}
+				outs[w] = append(outs[w], out{ki, conn.Output()})
+			}
+		}(w)
+	}
+	close(start)
+	wg.Wait()
+	if f := fnd.Load(); f != nil {
+		return f
+	}
+	seen := map[string]bool{}
+	n := 0
+	for _, os := range outs {
+		for _, o := range os {
+			ks := c.Keys[o.key]
+			key := ks.Key()
+			if len(o.wire) < key.SaltSize() {
+				return kit.Violation("salt:response-undecryptable", "response shorter than a salt")
+			}
+			dec := kit.NewStreamDecoder(key)
+			if err := dec.Feed(o.wire); err != nil || string(dec.Plain) != "r" {
+				return kit.Violation("salt:response-undecryptable", "a response produced concurrently under %s does not decrypt under that key (%v)", ks.ID, err)
+			}
+			s := string(o.wire[:key.SaltSize()])
+			if seen[s] {
+				return kit.Violation("salt:reused", "two concurrent connections received the same server salt %x", s)
+			}
+			seen[s] = true
+			if key.SaltSize() < 20 {
+				continue
+			}
+			n++
+			conn := kit.NewMemConn(o.wire, &net.TCPAddr{IP: net.IPv4(198, 51, 100, 3), Port: 3000})
+			rec := kit.NewRecTCPConn()
+			h.Handle(context.Background(), conn, rec)
+			if cl, _ := rec.Closed(); cl.Status != "ERR_REPLAY_SERVER" {
+				return kit.Violation("salt:reflection-accepted", "a server stream produced while %d goroutines used key %s concurrently was presented back and closed with %q, want ERR_REPLAY_SERVER: the server did not recognise its own salt", c.Workers, ks.ID, cl.Status)
+			}
+		}
+	}
+	info.NonTrivial = n > 0
+	info.Steps = c.Workers * c.PerW
+	return nil
+}
+
+func TestC08_Concurrent(t *testing.T) {
+	p := kit.Prop[C08Conc]{ID: "C08", Name: "Concurrent", Quick: 60, Thorough: 4000, Gen: genC08Conc, Run: runC08Conc, Journal: true}
 	p.Execute(t)
 }
